@@ -22,7 +22,7 @@ var knobsMutations = Knobs{MinInst: 2, MaxInst: 6, MaxGroups: 3, LatFrac: 0.4, W
 func TestC01(t *testing.T) {
 	RunCheck(t, CheckSpec{Prop: "C01",
 		Rule:   "plans with 2-6 instances over 1-3 groups in one bucket: start/stop/restart/StopWithContext(DeleteKey on/off) at times and at phases of in-flight operations, every link fault (error, request time-out, lost acknowledgement, partition windows short/longer than TTL/permanent), lost and delayed watch events, priorities with ties and mixed takeover flags, an outside writer; oracle: every applied Create/Update/Delete of every instance in the complete store log is creation over no live record, a same-identity same-token refresh of the writer's own version against that revision, a takeover by an enabled instance with strictly higher priority than the stored one, or a delete of the writer's own version inside its StopWithContext{DeleteKey}; key == own group. Non-trivial = >=2 instances and (>=2 owner changes or a mutation applied while another instance claims leadership); distinct by plan hash.",
-		Gen:    func(t *rapid.T) *Plan { return GenPlan(t, "mutations", knobsMutations) },
+		Gen:    MixReacquire("mutations", func(t *rapid.T) *Plan { return GenPlan(t, "mutations", knobsMutations) }),
 		Oracle: OracleC01})
 }
 
@@ -60,6 +60,9 @@ func TestC12(t *testing.T) {
 	RunCheck(t, CheckSpec{Prop: "C12",
 		Rule: "1-3 instances with a scripted health checker (healthy / unhealthy / slow-then-healthy / slow-then-unhealthy = blocks until the supplied context is done), thresholds MaxConsecutiveFailures in {0(->3),1,2,3,5}, heartbeat intervals 100ms..3s (the heartbeat time-out switches from 1s to H/2 above 2s), scripts that over-weight runs of threshold-1, threshold, threshold+1 unhealthy results, runs of 30-70 H so that an instance leads several terms (re-acquires after its record lapses), occasional stops/restarts, in a third of the plans isolated transient failures of 1-6 of the instance's first 25 refreshes; oracle: a reference consecutive-failure counter per term fed with the checker's own call log decides on which tick the health mechanism must demote (exactly at the threshold, never below, reset by a healthy result and by a new term), plus ctx deadline <= 100ms, no refresh on unhealthy ticks, OnDemote, FOLLOWER afterwards and re-election of a sole candidate within 600ms + latencies of the record's lapse. Non-trivial = a script with >= 1 unhealthy result reached a leader; distinct by plan hash.",
 		Gen: func(t *rapid.T) *Plan {
+			if rapid.IntRange(0, 6).Draw(t, "straggler") == 0 {
+				return GenStragglerPlan(t, "health")
+			}
 			p := GenPlan(t, "health", knobsHealth)
 			for i := range p.Instances {
 				if !p.Instances[i].HasHealth && i == 0 {
